@@ -182,6 +182,7 @@ def check(case):
         D = []
         fmax = np.abs(f0).reshape(-1, 1) * np.ones((1, n))
         hs = np.array([1e-4 * (1 + abs(s[j])) for j in range(n)])
+        kink = np.zeros((len(order), n), dtype=bool)
         try:
             for fac in (1.0, 0.5):
                 Jh = np.zeros_like(J)
@@ -193,6 +194,12 @@ def check(case):
                     fp, fm = m.raw("rhs", sp, pt["t"], p), m.raw("rhs", sm_, pt["t"], p)
                     Jh[:, j] = (fp - fm) / (2 * h)
                     fmax[:, j] = np.maximum(fmax[:, j], np.maximum(np.abs(fp), np.abs(fm)))
+                    if fac == 0.5:
+                        # one-sided slopes: where they disagree the point sits on a branch boundary of a Conditional (a kink or a
+                        # jump), the rhs has no derivative there and a central difference is the mean of two different slopes
+                        fwd, bwd = (fp - f0) / h, (f0 - fm) / h
+                        with np.errstate(all="ignore"):
+                            kink[:, j] = ~(np.abs(fwd - bwd) <= 0.05 * np.maximum(np.abs(fwd), np.abs(bwd)) + 1e-5)
                 D.append(Jh)
         except be.Stage:
             cm.note(res, "skipped:rhs-raises-next-to-the-point")
@@ -201,7 +208,7 @@ def check(case):
         est = np.abs(D[0] - D[1])
         rounding = 8 * 2.2e-16 * fmax / (0.5 * hs.reshape(1, -1))
         with np.errstate(all="ignore"):
-            unreliable = ~np.isfinite(FD) | (est > 1e-3 * np.maximum(np.abs(D[0]), np.abs(D[1])) + 1e-7)
+            unreliable = ~np.isfinite(FD) | (est > 1e-3 * np.maximum(np.abs(D[0]), np.abs(D[1])) + 1e-7) | kink
             tol = 1e-6 * (1 + np.abs(J)) + 50 * est + rounding
             wrong = ~unreliable & (np.abs(J - FD) > tol)
         if np.any(unreliable):
